@@ -12,12 +12,104 @@ import TgModel.Lemmas.ParserShape
 
 namespace Tg
 
+/-! ### an `Id` token does not begin with a quote -/
+
+section lexer
+open Lex
+
+theorem Lex.next_quote (r : List Char) : (Lex.next ('"' :: r)).kind ≠ .Id := by
+  have h1 : armWhitespace '"' r = none := by
+    unfold armWhitespace
+    rw [if_neg (by decide)]
+  have h2 : armLineComment '"' r = none := by unfold armLineComment; split <;> simp_all
+  have h3 : armBlockComment '"' r = none := by unfold armBlockComment; split <;> simp_all
+  have h4 : armDigit '"' r = none := by unfold armDigit; rw [if_neg (by decide)]
+  have h5 : armSign '"' r = none := by unfold armSign; rw [if_neg (by decide)]
+  have h6 : armIdent '"' r = none := by unfold armIdent; rw [if_neg (by decide)]
+  simp only [Lex.next, arms, firstArm, h1, h2, h3, h4, h5, h6, armString, beq_self_eq_true, if_true]
+  split <;> simp
+
+theorem Lex.next_id_plain (s : List Char) (h : (Lex.next s).kind = .Id) : (Lex.next s).text.head? ≠ some '"' := by
+  cases s with
+  | nil => simp [Lex.next] at h
+  | cons c r =>
+    obtain ⟨t, h1, _⟩ := (good_next c r).consumes
+    rw [h1]
+    simp only [List.head?_cons, ne_eq, Option.some.injEq]
+    intro hc
+    subst hc
+    exact Lex.next_quote r h
+
+theorem Src.processIf_notId (b : Bool) (d : Tok) (s : Src) : (Src.processIf b d s).1.kind ≠ .Id := by
+  unfold Src.processIf
+  dsimp only
+  split
+  · split <;> simp
+  · simp
+
+theorem Src.processDefine_notId (d : Tok) (s : Src) : (Src.processDefine d s).1.kind ≠ .Id := by
+  unfold Src.processDefine
+  dsimp only
+  split <;> simp
+
+theorem Src.eat_fst_of_id (s : Src) (h : (s.eat).1.kind = .Id) : (s.eat).1 = (s.lexEat).1 := by
+  unfold Src.eat at h ⊢
+  generalize s.lexEat = p at h ⊢
+  obtain ⟨t, s1⟩ := p
+  simp only at h ⊢
+  revert h
+  split
+  · intro h; exact absurd h (Src.processIf_notId _ _ _)
+  · intro h; exact absurd h (Src.processIf_notId _ _ _)
+  · intro h; simp at h
+  · intro h; simp at h
+  · intro h; exact absurd h (Src.processDefine_notId _ _)
+  · rename_i hk; intro h; simp only at h; rw [hk] at h
+  · intro _; rfl
+
+theorem Src.eat_id_plain (s : Src) (h : (s.eat).1.kind = .Id) : (s.eat).1.text.head? ≠ some '"' := by
+  have he := Src.eat_fst_of_id s h
+  rw [he] at h ⊢
+  unfold Src.lexEat at h ⊢
+  exact Lex.next_id_plain _ h
+
+end lexer
+
+/-- the look-ahead token, if it is an `Id`, does not begin with a quote -/
+def CurTok (s : PState) : Prop := s.cur = .Id → s.curText.head? ≠ some '"'
+
+theorem tok_lex (s : PState) : CurTok s.lex := by
+  intro h
+  unfold PState.lex at h ⊢
+  exact Src.eat_id_plain s.src h
+
+theorem tok_skip : ∀ (fuel : Nat) {s s' : PState}, CurTok s → PState.skip fuel s = .ok s' → CurTok s'
+  | 0, _, _, _, h => by simp [PState.skip] at h
+  | fuel + 1, s, s', ht, h => by
+    simp only [PState.skip] at h
+    split at h
+    · split at h
+      · exact tok_skip fuel (tok_lex _) h
+      · rename_i hne; first | exact (hne _ h).elim | cases h
+    · simp only [Res.ok.injEq] at h; subst h; exact ht
+
+theorem tok_eat {s s' : PState} (h : s.eat = .ok s') : CurTok s' := by
+  unfold PState.eat at h
+  split at h
+  · exact tok_skip _ (tok_lex _) h
+  · rename_i hne; first | exact (hne _ h).elim | cases h
+
+theorem tok_init (input : List Char) : CurTok (PState.init input) := by
+  intro h
+  unfold PState.init at h ⊢
+  exact Src.eat_id_plain _ h
+
 /-! ### the green-tree predicate -/
 
-/-- children of an `Identifier` node: none, or first a non-empty token -/
+/-- children of an `Identifier` node: none, or first a non-empty token that does not begin with a quote -/
 def idHead : List Tree → Prop
   | [] => True
-  | .token _ txt :: _ => txt ≠ []
+  | .token _ txt :: _ => txt ≠ [] ∧ txt.head? ≠ some '"'
   | .node _ _ :: _ => False
 
 mutual
@@ -70,19 +162,21 @@ theorem idOKL_sub {a b : List Tree} (h : idOKL b) (hs : ∀ t ∈ a, t ∈ b) : 
 structure IdInv (s : PState) : Prop where
   cur : idOKL s.b.cur
   parents : ∀ p ∈ s.b.parents, p.1 ≠ .Identifier ∧ idOKL p.2
+  tok : CurTok s
 
 namespace IdInv
 variable {s s' : PState}
 
-theorem of_b (h : IdInv s) (hb : s'.b = s.b) : IdInv s' := ⟨by rw [hb]; exact h.cur, by rw [hb]; exact h.parents⟩
+theorem of_b (h : IdInv s) (hb : s'.b = s.b) (hc : s'.cur = s.cur := by rfl) (ht : s'.curText = s.curText := by rfl) :
+    IdInv s' := ⟨by rw [hb]; exact h.cur, by rw [hb]; exact h.parents, by unfold CurTok; rw [hc, ht]; exact h.tok⟩
 
 theorem pushed (h : IdInv s) (hp : s'.b.parents = s.b.parents) {tr : List Tree} (hc : s'.b.cur = tr ++ s.b.cur)
-    (htr : ∀ t ∈ tr, isTokenTree t = true) : IdInv s' :=
-  ⟨by rw [hc]; exact idOKL_append.mpr ⟨idOKL_of_tokens htr, h.cur⟩, by rw [hp]; exact h.parents⟩
+    (htr : ∀ t ∈ tr, isTokenTree t = true) (ht : CurTok s') : IdInv s' :=
+  ⟨by rw [hc]; exact idOKL_append.mpr ⟨idOKL_of_tokens htr, h.cur⟩, by rw [hp]; exact h.parents, ht⟩
 
 theorem eat (h : IdInv s) (he : s.eat = .ok s') : IdInv s' := by
   obtain ⟨_, h2, _, ⟨tr, h4, h5⟩, _⟩ := PState.eat_spec he
-  refine h.pushed h2 (tr := tr ++ [Tree.token s.cur.toSyntax s.curText]) (by rw [h4]; simp) ?_
+  refine h.pushed h2 (tr := tr ++ [Tree.token s.cur.toSyntax s.curText]) (by rw [h4]; simp) ?_ (tok_eat he)
   intro t ht
   simp only [List.mem_append, List.mem_singleton] at ht
   rcases ht with ht | rfl
@@ -91,12 +185,12 @@ theorem eat (h : IdInv s) (he : s.eat = .ok s') : IdInv s' := by
 
 theorem skip {fuel : Nat} (h : IdInv s) (he : PState.skip fuel s = .ok s') : IdInv s' := by
   obtain ⟨_, h2, _, ⟨tr, h4, h5⟩, _⟩ := PState.skip_spec _ _ _ he
-  exact h.pushed h2 h4 h5
+  exact h.pushed h2 h4 h5 (tok_skip _ h.tok he)
 
 theorem error (h : IdInv s) (msg : String) : IdInv (s.error msg) := h.of_b rfl
 
 theorem startNode (h : IdInv s) {k : SyntaxKind} (hk : k ≠ .Identifier) : IdInv (s.startNode k) := by
-  refine ⟨by simp [PState.startNode], ?_⟩
+  refine ⟨by simp [PState.startNode], ?_, h.tok⟩
   intro p hp
   simp only [PState.startNode, List.mem_cons] at hp
   rcases hp with rfl | hp
@@ -111,7 +205,7 @@ theorem finishNode (h : IdInv s) (hf : s.finishNode = .ok s') : IdInv s' := by
     simp only [Res.ok.injEq] at hf
     subst hf
     have hk := h.parents (k, sibs) (by rw [hps]; simp)
-    refine ⟨?_, ?_⟩
+    refine ⟨?_, ?_, h.tok⟩
     · simp only [idOKL_cons, Tree.idOK_node]
       exact ⟨⟨fun he => absurd he hk.1, idOKL_reverse.mpr h.cur⟩, hk.2⟩
     · intro p hp
@@ -126,7 +220,7 @@ theorem startNodeAt (h : IdInv s) {k : SyntaxKind} (hk : k ≠ .Identifier) {cp 
     · cases hs
     · simp only [Res.ok.injEq] at hs
       subst hs
-      refine ⟨idOKL_sub h.cur (fun t ht => List.mem_of_mem_take ht), ?_⟩
+      refine ⟨idOKL_sub h.cur (fun t ht => List.mem_of_mem_take ht), ?_, h.tok⟩
       intro p hp
       simp only [List.mem_cons] at hp
       rcases hp with rfl | hp
@@ -166,12 +260,12 @@ variable {rc : List TokenKind}
 /-- `finish_node(); return b` -/
 theorem exec_finish_ret {fuel : Nat} {b : Bool} {s s' : PState}
     (h : exec Grammar.defs rc fuel (.seq .finishNode (.retB b)) s = .ok s') :
-    ∃ s1, s.finishNode = .ok s1 ∧ s'.b = s1.b := by
+    ∃ s1, s.finishNode = .ok s1 ∧ s'.b = s1.b ∧ s'.cur = s1.cur ∧ s'.curText = s1.curText := by
   obtain ⟨n, s1, _, h1, h2⟩ := exec_seq h
   refine ⟨s1, exec_finishNode h1, ?_⟩
   cases n with
   | zero => simp [exec] at h2
-  | succ m => simp only [exec, Res.ok.injEq] at h2; subst h2; rfl
+  | succ m => simp only [exec, Res.ok.injEq] at h2; subst h2; exact ⟨rfl, rfl, rfl⟩
 
 /-- the grammar function `identifier` -/
 theorem identifier_idInv {input : List Char} {fuel : Nat} {s s' : PState} (hinv : Inv input s) (h : IdInv s)
@@ -183,14 +277,14 @@ theorem identifier_idInv {input : List Char} {fuel : Nat} {s s' : PState} (hinv 
   obtain ⟨n2, s2, _, h2, hx⟩ := exec_seq hx
   -- the node `Identifier` is open with no children
   have hfin : ∀ {s3 s4 : PState}, s3.b.parents = (.Identifier, s.b.cur) :: s.b.parents →
-      idHead s3.b.cur.reverse → idOKL s3.b.cur → s3.finishNode = .ok s4 → IdInv s4 := by
-    intro s3 s4 hp hh hc hf
+      idHead s3.b.cur.reverse → idOKL s3.b.cur → CurTok s3 → s3.finishNode = .ok s4 → IdInv s4 := by
+    intro s3 s4 hp hh hc htk hf
     unfold PState.finishNode at hf
     rw [hp] at hf
     simp only [Res.ok.injEq] at hf
     subst hf
     exact ⟨by simp only [idOKL_cons, Tree.idOK_node]; exact ⟨⟨fun _ => hh, idOKL_reverse.mpr hc⟩, h.cur⟩,
-      h.parents⟩
+      h.parents, htk⟩
   cases n2 with
   | zero => simp [exec] at h2
   | succ m =>
@@ -206,11 +300,14 @@ theorem identifier_idInv {input : List Char} {fuel : Nat} {s s' : PState} (hinv 
         have hne : s.curText ≠ [] := hinv.ne (by rw [hcurId]; decide)
         simp only [exec] at hx
         simp only [if_true] at hx
-        obtain ⟨s3, hf, hb⟩ := exec_finish_ret hx
-        refine (hfin (s3 := { s1e with flag := true }) (by simpa [PState.startNode] using hp) ?_ ?_ hf).of_b hb
+        obtain ⟨s3, hf, hb, hb1, hb2⟩ := exec_finish_ret hx
+        have hnq : s.curText.head? ≠ some '"' := h.tok hcurId
+        refine (hfin (s3 := { s1e with flag := true }) (by simpa [PState.startNode] using hp) ?_ ?_
+          (fun hh => (tok_eat he : CurTok s1e) hh) hf).of_b
+          hb hb1 hb2
         · show idHead s1e.b.cur.reverse
           rw [hc]
-          simp [PState.startNode, idHead, hne]
+          simp [PState.startNode, idHead, hne, hnq]
         · show idOKL s1e.b.cur
           rw [hc]
           exact idOKL_append.mpr ⟨idOKL_of_tokens htr, by simp [PState.startNode]⟩
@@ -219,9 +316,9 @@ theorem identifier_idInv {input : List Char} {fuel : Nat} {s s' : PState} (hinv 
       subst h2
       simp only [exec] at hx
       simp only [Bool.false_eq_true, if_false] at hx
-      obtain ⟨s3, hf, hb⟩ := exec_finish_ret hx
+      obtain ⟨s3, hf, hb, hb1, hb2⟩ := exec_finish_ret hx
       exact (hfin (s3 := { s.startNode .Identifier with flag := false }) (by simp [PState.startNode])
-        (by simp [PState.startNode, idHead]) (by simp [PState.startNode]) hf).of_b hb
+        (by simp [PState.startNode, idHead]) (by simp [PState.startNode]) h.tok hf).of_b hb hb1 hb2
 
 /-- **soundness**: a program that passes the check keeps the builder invariant -/
 theorem idInv_exec (input : List Char) :
@@ -340,7 +437,7 @@ theorem idInv_exec (input : List Char) :
 non-empty token -/
 theorem source_file_idOK (input : List Char) {fuel : Nat} {s : PState}
     (hx : exec Grammar.defs rc fuel (.call .source_file) (PState.init input) = .ok s) : idOKL s.b.cur := by
-  have hi0 : IdInv (PState.init input) := ⟨by simp [PState.init], by simp [PState.init]⟩
+  have hi0 : IdInv (PState.init input) := ⟨by simp [PState.init], by simp [PState.init], tok_init input⟩
   cases fuel with
   | zero => simp [exec] at hx
   | succ n =>
